@@ -155,6 +155,9 @@ def main(argv=None):
     rep = R.Report(PROP, tier, seed)
     ex = list(D.plain_inputs(range(1, 5), range(1, 4 if q else 5)))
     smp = [D.random_plain_input(rng, rng.randint(4, 5), rng.randint(3, 5)) for _ in range(250 if q else 600)]
+    # the same question on trees whose ancestors carry no name (the documented input format allows it; the LCA is about nodes, not names)
+    ex += [dict(d, unnamed=True) for d in D.plain_inputs(range(2, 5), range(2, 4 if q else 5))]
+    smp += [dict(D.random_plain_input(rng, rng.randint(4, 5), rng.randint(4, 5)), unnamed=True) for _ in range(80 if q else 300)]
     big = [D.random_plain_input(rng, rng.randint(6, 8), rng.randint(3, 6)) for _ in range(0 if q else 40)]
     mk = lambda d: {"desc": d, "max_paths": 5000 if q else 30000, "budget_s": 200.0 if q else 900.0}
     res, sk = R.run_sharded(worker, [mk(d) for d in ex], 100 if q else 1500)
@@ -166,6 +169,7 @@ def main(argv=None):
                                     m9.LowestCommonAncestor.__call__)
     rep.bounds = {"exhaustive": f"every input with 1-4 object leaves x 1-{3 if q else 4} species leaves (plane shapes, every leaf assignment)",
                   "sampled": f"{len(smp)} seeded inputs with 4-5 object leaves, 2-5 species leaves" + ("" if q else "; 40 seeded inputs with 6-8 object leaves (oracle enumeration still exhaustive per input)"),
+                  "naming": "every exhaustive input also with all ancestors of both trees unnamed (solutions read back by pre-order position) + seeded unnamed 4-5-leaf inputs",
                   "costs": "dup, floss: all non-negative integers; spe: all integers with 0 <= spe <= dup; hgt = infinity.inf (transfers forbidden)"}
     rep.assumptions = ["oracle engine/oracles/recon.py", "z3 linear integer arithmetic"]
     rep.stubs = H.STUBS
